@@ -232,7 +232,16 @@ def _sig_boolarg(case, res):
     return str(d.get("what", "")).startswith("complete-check-consistent") and sigs.boolarg_combination_wrong_sat(case)
 
 
-SIGNATURES = {"uf-bool-argument-theory-combination-wrong-sat": _sig_boolarg}
+def _sig_la_arrays(case, res):
+    d = res.detail or {}
+    L = gen.LOGICS.get(case.get("lk")) or {}
+    lits = " ".join(d.get("literals") or [])
+    return str(d.get("what", "")).startswith("complete-check-consistent") and sigs.is_lookahead(case) and \
+        bool(L.get("arrays")) and "(select (store " in lits
+
+
+SIGNATURES = {"uf-bool-argument-theory-combination-wrong-sat": _sig_boolarg,
+              "lookahead-array-axiom-instances-ignored": _sig_la_arrays}
 
 
 def sample(case, res):
